@@ -15,6 +15,7 @@ import (
 	"encoding/json"
 	"fmt"
 	"io"
+	"math/big"
 	"net"
 	"os"
 	"path/filepath"
@@ -74,6 +75,7 @@ type rsFrame struct {
 	Salt, Sid, Mid uint64
 	Seq            uint32
 	Body           []byte
+	Caller         int // for a request frame: the caller whose tag the request carries
 }
 
 type rsServer struct {
@@ -159,16 +161,28 @@ func (s *rsServer) readLoop(c net.Conn) {
 			ctor = binary.LittleEndian.Uint32(f.Body)
 		}
 		// every message the client writes is checked byte for byte against what its sender meant: a request is
-		// exactly ping#7abe77ec ping_id:long, an acknowledgement exactly msgs_ack#62d6b459 msg_ids:Vector<long>
-		// with at least one id and nothing behind the last one. Anything else under those constructors is a
-		// message the client damaged between encoding and writing it (event X).
+		// exactly the serialisation of its type for the caller's tag (ping#7abe77ec ping_id:long unless the caller
+		// kind names another request type, see rsReqTypes), an acknowledgement exactly msgs_ack#62d6b459
+		// msg_ids:Vector<long> with at least one id and nothing behind the last one. Anything else under those
+		// constructors is a message the client damaged between encoding and writing it (event X).
 		switch {
 		case ctor == rsCrcPing && len(f.Body) == 12:
 			tag := int64(binary.LittleEndian.Uint64(f.Body[4:]))
+			f.Caller = int(tag - rsTagBase)
 			s.reqs = append(s.reqs, f)
 			s.log.add("S:%d:%d:%d:%d:q", tag-rsTagBase, f.Mid, f.Seq, int64(f.Salt))
 		case ctor == rsCrcPing:
 			s.log.add("X:malformed-request(%d_bytes_%s)", len(f.Body), rsHexHead(f.Body))
+		case rsIsReqCtor(ctor):
+			// a request of another type: the sixth field names its constructor
+			name, tag, n, ok := rsReqParse(f.Body)
+			if !ok || !bytes.Equal(f.Body, rsReqWire(name, tag, n)) {
+				s.log.add("X:malformed-request(%d_bytes_%s)", len(f.Body), rsHexHead(f.Body))
+				break
+			}
+			f.Caller = int(tag - rsTagBase)
+			s.reqs = append(s.reqs, f)
+			s.log.add("S:%d:%d:%d:%d:q:%08x", tag-rsTagBase, f.Mid, f.Seq, int64(f.Salt), ctor)
 		case ctor == rsCrcAck:
 			n := -1
 			if len(f.Body) >= 12 && binary.LittleEndian.Uint32(f.Body[4:]) == rsCrcVector {
@@ -229,7 +243,7 @@ func (s *rsServer) latestReq(i int) (rsFrame, bool) {
 	s.mu.Lock()
 	defer s.mu.Unlock()
 	for k := len(s.reqs) - 1; k >= 0; k-- {
-		if int64(binary.LittleEndian.Uint64(s.reqs[k].Body[4:]))-rsTagBase == int64(i) {
+		if s.reqs[k].Caller == i {
 			return s.reqs[k], true
 		}
 	}
@@ -317,7 +331,8 @@ func rsYieldSel(arg interface{}) string {
 	switch a := arg.(type) {
 	case *objects.MsgsAck:
 		return "k"
-	case *objects.PingParams:
+	case *objects.PingParams, *rsPingDelayDisconnect, *objects.MsgsStateReq, *objects.MsgResendReq, *objects.ReqPQParams,
+		*objects.ReqDHParamsParams, *objects.SetClientDHParamsParams, *rsRpcDropAnswer, *rsGetFutureSalts, *rsDestroySession:
 		return "q"
 	case messages.Common:
 		body = a.GetMsg()
@@ -328,7 +343,7 @@ func rsYieldSel(arg interface{}) string {
 		switch binary.LittleEndian.Uint32(body) {
 		case rsCrcAck:
 			return "k"
-		case rsCrcPing:
+		case rsCrcPing, rsCrcPingDelay, rsCrcStateReq, rsCrcResendReq, rsCrcReqPQ, rsCrcReqDH, rsCrcSetDH, rsCrcDropAnswer, rsCrcGetSalts, rsCrcDestroy:
 			return "q"
 		case rsCrcRpcResult:
 			return "r"
@@ -649,6 +664,206 @@ func rsRpcResult(reqID uint64, payload []byte) []byte {
 	return rsCat(rsU32(rsCrcRpcResult), rsU64(reqID), payload)
 }
 
+// ---- request types -----------------------------------------------------------------------------------------
+//
+// A caller kind may name the request its call sends: "<result kind>@<request type>" (without "@…": ping). MakeRequest
+// takes any tl.Object, so an application can send every request of the MTProto service schema: the ones the
+// repository's objects package defines (req_pq, req_DH_params, set_client_DH_params, ping, msgs_state_req,
+// msg_resend_req) and the ones it only names in comments (rpc_drop_answer, get_future_salts, ping_delay_disconnect,
+// destroy_session), defined here. Every request carries the caller's tag in its first field; the peer recognises
+// the type by its constructor, rebuilds the serialisation by hand from the schema line and compares byte for byte.
+//
+//   pi                ping#7abe77ec ping_id:long
+//   pd                ping_delay_disconnect#f3427b8c ping_id:long disconnect_delay:int
+//   sr<n>  (n >= 1)   msgs_state_req#da69fb52 msg_ids:Vector<long>
+//   rr<n>  (n >= 1)   msg_resend_req#7d861a08 msg_ids:Vector<long>
+//   pq                req_pq#60469778 nonce:int128
+//   dh                req_DH_params#d712e4be nonce:int128 server_nonce:int128 p:bytes q:bytes public_key_fingerprint:long encrypted_data:bytes
+//   sc                set_client_DH_params#f5045f1f nonce:int128 server_nonce:int128 encrypted_data:bytes
+//   da                rpc_drop_answer#58e4a740 req_msg_id:long
+//   fs                get_future_salts#b921bd04 num:int
+//   ds                destroy_session#e7512126 session_id:long
+
+const (
+	rsCrcPingDelay  = 0xf3427b8c
+	rsCrcStateReq   = 0xda69fb52
+	rsCrcResendReq  = 0x7d861a08
+	rsCrcReqPQ      = 0x60469778
+	rsCrcReqDH      = 0xd712e4be
+	rsCrcSetDH      = 0xf5045f1f
+	rsCrcDropAnswer = 0x58e4a740
+	rsCrcGetSalts   = 0xb921bd04
+	rsCrcDestroy    = 0xe7512126
+)
+
+type rsPingDelayDisconnect struct {
+	PingID          int64
+	DisconnectDelay int32
+}
+
+func (*rsPingDelayDisconnect) CRC() uint32 { return rsCrcPingDelay }
+
+type rsRpcDropAnswer struct{ ReqMsgID int64 }
+
+func (*rsRpcDropAnswer) CRC() uint32 { return rsCrcDropAnswer }
+
+type rsGetFutureSalts struct{ Num int32 }
+
+func (*rsGetFutureSalts) CRC() uint32 { return rsCrcGetSalts }
+
+type rsDestroySession struct{ SessionID int64 }
+
+func (*rsDestroySession) CRC() uint32 { return rsCrcDestroy }
+
+var rsReqCtors = map[string]uint32{"pi": rsCrcPing, "pd": rsCrcPingDelay, "sr": rsCrcStateReq, "rr": rsCrcResendReq, "pq": rsCrcReqPQ,
+	"dh": rsCrcReqDH, "sc": rsCrcSetDH, "da": rsCrcDropAnswer, "fs": rsCrcGetSalts, "ds": rsCrcDestroy}
+
+func rsIsReqCtor(ctor uint32) bool {
+	for _, c := range rsReqCtors {
+		if c == ctor {
+			return true
+		}
+	}
+	return false
+}
+
+// rsContentRelated: the MTProto description, "Content-related Message: a message requiring an explicit
+// acknowledgment. These include all the user and many service messages, virtually all with the exception of
+// containers and acknowledgments" — the seq_no of a content-related message is odd, of the two exceptions even.
+// Written from that sentence, not from the client's table.
+func rsContentRelated(ctor uint32) bool {
+	return ctor != rsCrcAck && ctor != rsCrcContainer
+}
+
+// rsSplitKind: "o@sr3" -> result kind "o", request type "sr", 3; a kind without a request type: ping
+func rsSplitKind(kind string) (res, req string, n int) {
+	at := strings.LastIndex(kind, "@")
+	if at < 0 {
+		return kind, "pi", 0
+	}
+	name := kind[at+1:]
+	if len(name) > 2 && (name[:2] == "sr" || name[:2] == "rr") {
+		if v, err := strconv.Atoi(name[2:]); err == nil && v >= 1 && v <= 100000 {
+			return kind[:at], name[:2], v
+		}
+		return kind, "pi", 0
+	}
+	if _, ok := rsReqCtors[name]; ok && name != "sr" && name != "rr" {
+		return kind[:at], name, 0
+	}
+	return kind, "pi", 0 // an "@" of an error text
+}
+
+func rsReqIDs(tag int64, n int) []int64 {
+	ids := make([]int64, n)
+	for j := range ids {
+		ids[j] = tag + int64(j)*(1<<34) // the first id is the tag
+	}
+	return ids
+}
+
+func rsI128(v int64) []byte {
+	b := make([]byte, 16)
+	binary.BigEndian.PutUint64(b[8:], uint64(v))
+	return b
+}
+
+// rsReqObject: what the application passes to MakeRequest
+func rsReqObject(req string, tag int64, n int) tl.Object {
+	i128 := func(v int64) *tl.Int128 { return &tl.Int128{Int: big.NewInt(v)} }
+	switch req {
+	case "pi":
+		return &objects.PingParams{PingID: tag}
+	case "pd":
+		return &rsPingDelayDisconnect{PingID: tag, DisconnectDelay: 75}
+	case "sr":
+		return &objects.MsgsStateReq{MsgIDs: rsReqIDs(tag, n)}
+	case "rr":
+		return &objects.MsgResendReq{MsgIDs: rsReqIDs(tag, n)}
+	case "pq":
+		return &objects.ReqPQParams{Nonce: i128(tag)}
+	case "dh":
+		return &objects.ReqDHParamsParams{Nonce: i128(tag), ServerNonce: i128(tag*3 + 1), P: []byte{0x49, 0x4c, 0x55, 0x3b}, Q: []byte{0x53, 0x91, 0x10, 0x73},
+			PublicKeyFingerprint: tag * 7, EncryptedData: rsBigBytes(256, int(tag))}
+	case "sc":
+		return &objects.SetClientDHParamsParams{Nonce: i128(tag), ServerNonce: i128(tag*3 + 1), EncryptedData: rsBigBytes(336, int(tag)+1)}
+	case "da":
+		return &rsRpcDropAnswer{ReqMsgID: tag}
+	case "fs":
+		return &rsGetFutureSalts{Num: int32(tag)}
+	case "ds":
+		return &rsDestroySession{SessionID: tag}
+	}
+	panic("bad request type " + req)
+}
+
+// rsReqWire: the serialisation of that request, written from its schema line
+func rsReqWire(req string, tag int64, n int) []byte {
+	switch req {
+	case "pi":
+		return rsCat(rsU32(rsCrcPing), rsU64(uint64(tag)))
+	case "pd":
+		return rsCat(rsU32(rsCrcPingDelay), rsU64(uint64(tag)), rsU32(75))
+	case "sr", "rr":
+		b := rsCat(rsU32(rsReqCtors[req]), rsU32(rsCrcVector), rsU32(uint32(n)))
+		for _, id := range rsReqIDs(tag, n) {
+			b = append(b, rsU64(uint64(id))...)
+		}
+		return b
+	case "pq":
+		return rsCat(rsU32(rsCrcReqPQ), rsI128(tag))
+	case "dh":
+		return rsCat(rsU32(rsCrcReqDH), rsI128(tag), rsI128(tag*3+1), rsStr([]byte{0x49, 0x4c, 0x55, 0x3b}), rsStr([]byte{0x53, 0x91, 0x10, 0x73}),
+			rsU64(uint64(tag*7)), rsStr(rsBigBytes(256, int(tag))))
+	case "sc":
+		return rsCat(rsU32(rsCrcSetDH), rsI128(tag), rsI128(tag*3+1), rsStr(rsBigBytes(336, int(tag)+1)))
+	case "da":
+		return rsCat(rsU32(rsCrcDropAnswer), rsU64(uint64(tag)))
+	case "fs":
+		return rsCat(rsU32(rsCrcGetSalts), rsU32(uint32(tag)))
+	case "ds":
+		return rsCat(rsU32(rsCrcDestroy), rsU64(uint64(tag)))
+	}
+	panic("bad request type " + req)
+}
+
+// rsReqParse: type, tag (the first field) and number of ids of a request frame, by its constructor
+func rsReqParse(body []byte) (req string, tag int64, n int, ok bool) {
+	if len(body) < 8 {
+		return "", 0, 0, false
+	}
+	ctor := binary.LittleEndian.Uint32(body)
+	for name, c := range rsReqCtors {
+		if c == ctor {
+			req = name
+		}
+	}
+	switch req {
+	case "pi", "pd", "da", "ds":
+		if len(body) < 12 {
+			return "", 0, 0, false
+		}
+		return req, int64(binary.LittleEndian.Uint64(body[4:])), 0, true
+	case "fs":
+		return req, int64(int32(binary.LittleEndian.Uint32(body[4:]))), 0, true
+	case "pq", "dh", "sc":
+		if len(body) < 20 {
+			return "", 0, 0, false
+		}
+		return req, int64(binary.BigEndian.Uint64(body[12:])), 0, true
+	case "sr", "rr":
+		if len(body) < 20 {
+			return "", 0, 0, false
+		}
+		cnt := binary.LittleEndian.Uint32(body[8:])
+		if cnt < 1 || cnt > 100000 {
+			return "", 0, 0, false
+		}
+		return req, int64(binary.LittleEndian.Uint64(body[12:])), int(cnt), true
+	}
+	return "", 0, 0, false
+}
+
 // ---- the client under test -----------------------------------------------------------------------------
 
 type rsStore struct {
@@ -758,7 +973,9 @@ type rsRun struct {
 	log     *rsLog
 	m       *mtproto.MTProto
 	store   *rsStore
-	kinds   []string
+	kinds   []string // result kind of every caller
+	reqs    []string // request type of every caller (rsSplitKind)
+	reqN    []int    // number of ids of a msgs_state_req / msg_resend_req
 	wg      sync.WaitGroup
 	warnN   int
 	warnMu  sync.Mutex
@@ -806,7 +1023,11 @@ func rsStartOn(kinds []string, salt int64, fileStore bool) (*rsRun, error) {
 		}
 		return nil, err
 	}
-	r := &rsRun{srv: srv, log: log, m: m, store: store, kinds: kinds, started: time.Now(), tmpDir: tmpDir}
+	r := &rsRun{srv: srv, log: log, m: m, store: store, started: time.Now(), tmpDir: tmpDir}
+	for _, k := range kinds {
+		res, req, n := rsSplitKind(k)
+		r.kinds, r.reqs, r.reqN = append(r.kinds, res), append(r.reqs, req), append(r.reqN, n)
+	}
 	m.Warnings = make(chan error, 4096)
 	go func() {
 		for w := range m.Warnings {
@@ -859,7 +1080,7 @@ func (r *rsRun) call(i int) {
 				r.log.add("D:%d:panic", i)
 			}
 		}()
-		req := &objects.PingParams{PingID: int64(rsTagBase + i)}
+		req := rsReqObject(r.reqs[i], int64(rsTagBase+i), r.reqN[i])
 		var res interface{}
 		var err error
 		switch {
@@ -971,6 +1192,17 @@ func (r *rsRun) item(it string) (body []byte, content bool, desc string, ok bool
 		return rsCat(rsU32(rsCrcPong), rsU64(1), rsU64(2)), false, "pong", true
 	case it == "k":
 		return rsCat(rsU32(rsCrcAck), rsU32(rsCrcVector), rsU32(1), rsU64(4)), false, "ack", true
+	case strings.HasPrefix(it, "z(") && strings.HasSuffix(it, ")"): // z(<item>): the item inside gzip_packed (the client unpacks it and
+		// treats what it finds like the message itself; what cannot be decoded inside is reported like the bare item)
+		b, content, desc, ok := r.item(it[2 : len(it)-1])
+		if !ok {
+			return nil, false, "", false
+		}
+		return rsGzip(b), content, desc, true
+	case strings.HasPrefix(it, "M"):
+		return r.svcItem(it[1:])
+	case strings.HasPrefix(it, "mc") || strings.HasPrefix(it, "ml") || (len(it) > 2 && it[0] == 'v' && strings.IndexByte("ksraf", it[1]) >= 0 && it[2] >= '0' && it[2] <= '9'):
+		return r.countItem(it)
 	case strings.HasPrefix(it, "n"):
 		salt, _ := strconv.ParseInt(it[1:], 10, 64)
 		return rsCat(rsU32(rsCrcNewSess), rsU64(5), rsU64(6), rsU64(uint64(salt))), true, fmt.Sprintf("news(%d)", salt), true
@@ -1158,6 +1390,185 @@ func (r *rsRun) item(it string) (body []byte, content bool, desc string, ok bool
 	return nil, false, "", false
 }
 
+// clientIDs: n msg_ids for a service message about messages — those of the messages the client wrote, newest
+// first, then made-up ones
+func (r *rsRun) clientIDs(n int) []byte {
+	r.srv.mu.Lock()
+	defer r.srv.mu.Unlock()
+	out := make([]byte, 0, 8*n)
+	for k := len(r.srv.frames) - 1; k >= 0 && len(out) < 8*n; k-- {
+		out = append(out, rsU64(r.srv.frames[k].Mid)...)
+	}
+	for j := 0; len(out) < 8*n; j++ {
+		out = append(out, rsU64(uint64(0x5f00000000000000+4*j))...)
+	}
+	return out
+}
+
+// svcItem: M<name>[<n>][~] — a well-formed service message a server may send that is a request to the client or
+// an informational message (MTProto "service messages about messages" and the answers of service requests),
+// written from its schema line; n = number of ids / status bytes / salts (default 1, 0 allowed). Requests and
+// answers are sent as content-related messages, informational ones not; "~" behind the item flips that.
+//
+//	sr msgs_state_req#da69fb52 msg_ids:Vector<long>            rr msg_resend_req#7d861a08 msg_ids:Vector<long>
+//	ra msg_resend_ans_req#8610baeb msg_ids:Vector<long>        si msgs_state_info#04deb57d req_msg_id:long info:string
+//	ai msgs_all_info#8cc0d131 msg_ids:Vector<long> info:string di msg_detailed_info#276d3ec6 msg_id:long answer_msg_id:long bytes:int status:int
+//	ni msg_new_detailed_info#809db6df answer_msg_id:long bytes:int status:int
+//	fs future_salts#ae500895 req_msg_id:long now:int salts:vector<future_salt>  (bare vector of bare elements)
+//	do destroy_session_ok#e22045fc session_id:long             dn destroy_session_none#62d350c9 session_id:long
+//	au rpc_answer_unknown#5e2ad36e   ar rpc_answer_dropped_running#cd78e586   ad rpc_answer_dropped#a43ad8b7 msg_id:long seq_no:int bytes:int
+//	pi ping#7abe77ec ping_id:long
+//
+// The client as it stands has no use for any of them: each is reported on the warning channel (description
+// svc(<name>): one warning) and the receive loop goes on.
+func (r *rsRun) svcItem(it string) (body []byte, content bool, desc string, ok bool) {
+	flip := strings.HasSuffix(it, "~")
+	it = strings.TrimSuffix(it, "~")
+	if len(it) < 2 {
+		return nil, false, "", false
+	}
+	name, n := it[:2], 1
+	if len(it) > 2 {
+		v, err := strconv.Atoi(it[2:])
+		if err != nil || v < 0 || v > 100000 {
+			return nil, false, "", false
+		}
+		n = v
+	}
+	vec := func() []byte { return rsCat(rsU32(rsCrcVector), rsU32(uint32(n)), r.clientIDs(n)) }
+	status := func() []byte {
+		b := make([]byte, n)
+		for j := range b {
+			b[j] = []byte{1, 2, 3, 4, 4 | 8, 4 | 16, 4 | 32 | 64}[j%7]
+		}
+		return rsStr(b)
+	}
+	switch name {
+	case "sr":
+		body, content = rsCat(rsU32(rsCrcStateReq), vec()), true
+	case "rr":
+		body, content = rsCat(rsU32(rsCrcResendReq), vec()), true
+	case "ra":
+		body, content = rsCat(rsU32(0x8610baeb), vec()), true
+	case "si":
+		body = rsCat(rsU32(0x04deb57d), r.clientIDs(1), status())
+	case "ai":
+		body = rsCat(rsU32(0x8cc0d131), vec(), status())
+	case "di":
+		body = rsCat(rsU32(0x276d3ec6), r.clientIDs(1), rsU64(r.srv.nextIDPeek()), rsU32(48), rsU32(0))
+	case "ni":
+		body = rsCat(rsU32(0x809db6df), rsU64(r.srv.nextIDPeek()), rsU32(48), rsU32(0))
+	case "fs":
+		now := uint32(time.Now().Unix())
+		body, content = rsCat(rsU32(0xae500895), r.clientIDs(1), rsU32(now), rsU32(uint32(n))), true
+		for j := 0; j < n; j++ {
+			body = rsCat(body, rsU32(now+uint32(3600*j)), rsU32(now+uint32(3600*j+3600)), rsU64(uint64(0x0101010101010101*(j+1))))
+		}
+	case "do":
+		body, content = rsCat(rsU32(0xe22045fc), rsU64(r.srv.sidNow())), true
+	case "dn":
+		body, content = rsCat(rsU32(0x62d350c9), rsU64(r.srv.sidNow()^1)), true
+	case "au":
+		body, content = rsU32(0x5e2ad36e), true
+	case "ar":
+		body, content = rsU32(0xcd78e586), true
+	case "ad":
+		body, content = rsCat(rsU32(0xa43ad8b7), r.clientIDs(1), rsU32(7), rsU32(32)), true
+	case "pi":
+		body, content = rsCat(rsU32(rsCrcPing), rsU64(99)), true
+	default:
+		return nil, false, "", false
+	}
+	if flip {
+		content = !content
+	}
+	return body, content, "svc(" + it + ")", true
+}
+
+func (s *rsServer) nextIDPeek() uint64 { s.mu.Lock(); defer s.mu.Unlock(); return s.nextID }
+func (s *rsServer) sidNow() uint64     { s.mu.Lock(); defer s.mu.Unlock(); return s.sid }
+
+// countItem: service messages whose 32-bit count or length field carries an arbitrary value (a decoder that reads
+// it as a signed number sees 0x80000000..0xffffffff as negative), with and without data behind it:
+//
+//	mc<count>+<k>   msg_container declaring count messages, k complete members (pongs) behind the count
+//	ml<len>         msg_container of one member whose bytes field says len (20 bytes of pong follow); len > 20
+//	vk<count>+<k>   msgs_ack, vs… msgs_state_req, vr… msg_resend_req, va… msgs_all_info: Vector<long> declaring count
+//	                ids, k ids behind it;   vf… future_salts declaring count salts, k salts behind it
+//
+// ("+<k>" may be left out: nothing behind the count.) What the client as it stands does with them — it must in
+// any case go on reading: a container whose count is zero or negative as a signed number is an empty container
+// (nothing reported, whatever follows is not looked at); a count or length that the data behind it cannot satisfy
+// makes the message undecodable (one warning); a count the data satisfies is an ordinary message (data behind the
+// last element is not looked at).
+func (r *rsRun) countItem(it string) (body []byte, content bool, desc string, ok bool) {
+	kind, rest := it[:2], it[2:]
+	k := 0
+	if plus := strings.Index(rest, "+"); plus >= 0 {
+		v, err := strconv.Atoi(rest[plus+1:])
+		if err != nil || v < 0 || v > 4096 {
+			return nil, false, "", false
+		}
+		k, rest = v, rest[:plus]
+	}
+	c64, err := strconv.ParseUint(rest, 10, 32)
+	if err != nil {
+		return nil, false, "", false
+	}
+	count := uint32(c64)
+	pong := rsCat(rsU32(rsCrcPong), rsU64(1), rsU64(2))
+	switch kind {
+	case "mc":
+		body = rsCat(rsU32(rsCrcContainer), rsU32(count))
+		var descs []string
+		for j := 0; j < k; j++ {
+			r.srv.mu.Lock()
+			mid := r.srv.newMsgID()
+			seq := r.srv.content * 2
+			r.srv.mu.Unlock()
+			body = rsCat(body, rsU64(mid), rsU32(seq), rsU32(uint32(len(pong))), pong)
+			if int64(j) < int64(int32(count)) {
+				descs = append(descs, fmt.Sprintf("%d:%d:pong", mid, seq))
+			}
+		}
+		switch {
+		case int32(count) <= 0:
+			return body, false, "cont()", true
+		case int64(count) > int64(k):
+			return body, false, "trunc", true
+		}
+		return body, false, "cont[" + strings.Join(descs, "|") + "]", true
+	case "ml":
+		if count <= uint32(len(pong)) {
+			return nil, false, "", false
+		}
+		r.srv.mu.Lock()
+		mid := r.srv.newMsgID()
+		seq := r.srv.content * 2
+		r.srv.mu.Unlock()
+		return rsCat(rsU32(rsCrcContainer), rsU32(1), rsU64(mid), rsU32(seq), rsU32(count), pong), false, "trunc", true
+	case "vf":
+		now := uint32(time.Now().Unix())
+		body = rsCat(rsU32(0xae500895), r.clientIDs(1), rsU32(now), rsU32(count))
+		for j := 0; j < k; j++ {
+			body = rsCat(body, rsU32(now), rsU32(now+3600), rsU64(uint64(j+1)))
+		}
+		return body, true, "svc(" + it + ")", true
+	}
+	ctor := map[string]uint32{"vk": rsCrcAck, "vs": rsCrcStateReq, "vr": rsCrcResendReq, "va": 0x8cc0d131}[kind]
+	body = rsCat(rsU32(ctor), rsU32(rsCrcVector), rsU32(count), r.clientIDs(k))
+	if kind == "va" && int64(count) <= int64(k) {
+		body = rsCat(body, rsStr(make([]byte, count)))
+	}
+	switch {
+	case kind == "vk" && int64(count) <= int64(k):
+		return body, false, "ack", true // a msgs_ack the data satisfies: nothing to report
+	case kind == "vk":
+		return body, false, "trunc", true
+	}
+	return body, kind != "va", "svc(" + it + ")", true
+}
+
 // runPlan executes the plan steps; returns a note when a step could not be carried out.
 func (r *rsRun) runPlan(plan string) string {
 	for _, st := range strings.Split(plan, ";") {
@@ -1231,7 +1642,16 @@ func (r *rsRun) runPlan(plan string) string {
 			r.srv.mu.Lock()
 			r.srv.content = uint32(atoi(st[1:]))
 			r.srv.mu.Unlock()
-		case strings.HasPrefix(st, "K"): // the server's clock runs this many seconds ahead of the client's
+		case strings.HasPrefix(st, "I"): // I<msg_id>: the server's next message carries the msg_id after this one (any 64-bit value
+			// that is 1 or 3 modulo 4: a server whose clock is far ahead or behind, a msg_id with bit 63 set, near 2^64)
+			id, err := strconv.ParseUint(st[1:], 10, 64)
+			if err != nil || id%4 == 0 || id%4 == 2 || id > 1<<64-1-2048 {
+				return "bad-item:" + st
+			}
+			r.srv.mu.Lock()
+			r.srv.nextID = id
+			r.srv.mu.Unlock()
+		case strings.HasPrefix(st, "K"): // the server's clock runs this many seconds ahead of the client's (negative: behind)
 			r.srv.mu.Lock()
 			r.srv.nextID += uint64(atoi(st[1:])) << 32
 			r.srv.mu.Unlock()
